@@ -66,10 +66,9 @@ pub(crate) fn mods_new() -> Modifiers {
     Modifiers { nodes: [None; crate::lexer::NodeType::count()], feats: [None; FType::count()], suprs: SupraSegs::new() }
 }
 
-/// an empty word (private `americanist` flag => must go through the constructor; with an empty
-/// string the constructor touches none of the lazy_static tables)
+/// an empty word: built by the one-line constructor the driver mounts inside word.rs (the `americanist` flag is private)
 pub(crate) fn empty_word() -> Word {
-    Word::new(String::new(), &[]).ok().unwrap()
+    crate::word::verif_word_helper::empty_word_direct()
 }
 
 pub(crate) fn syll_of(segs: &[Segment], stress: StressKind, tone: u16) -> Syllable {
